@@ -138,8 +138,166 @@ func c16Scenario(id string, race bool, n, fixedPool int, hasOpt, random bool, pr
 	}}
 }
 
+// f is quantified over all functions: an f that calls PMap itself (nested use), with enough outer workers to exhaust
+// any process-wide budget; termination by the stuck detector, results against the harness' own map.
+func c16Nested(id string, outer, outerPool, inner, innerPool int, concurrentCalls int) core.Scenario {
+	return core.Scenario{ID: id, Class: "PMap.nested", Run: func(c *core.Ctx) {
+		rep := map[string]any{"scenario": id, "outer_len": outer, "outer_fixed_pool": outerPool, "inner_len": inner, "inner_fixed_pool": innerPool, "concurrent_outer_calls": concurrentCalls}
+		c.Eval(1)
+		c.Distinct(id)
+		mkOpt := func(fp int) *fpgo.PMapOption {
+			if fp < 0 {
+				return nil
+			}
+			return &fpgo.PMapOption{FixedPool: fp}
+		}
+		innerList := make([]int, inner)
+		for i := range innerList {
+			innerList[i] = i + 1
+		}
+		f := func(x int) int {
+			sum := 0
+			for _, y := range fpgo.PMap(func(v int) int { runtime.Gosched(); return v * x }, mkOpt(innerPool), innerList...) {
+				sum += y
+			}
+			return sum
+		}
+		list := make([]int, outer)
+		for i := range list {
+			list[i] = i + 1
+		}
+		results := make([][]int, concurrentCalls)
+		done := make(chan struct{})
+		var pv any
+		go func() {
+			defer close(done)
+			var wg sync.WaitGroup
+			for k := 0; k < concurrentCalls; k++ {
+				wg.Add(1)
+				go func(k int) {
+					defer wg.Done()
+					p, _ := core.Catch(func() { results[k] = fpgo.PMap(f, mkOpt(outerPool), list...) })
+					if p != nil {
+						pv = p
+					}
+				}(k)
+			}
+			wg.Wait()
+		}()
+		v, dump := core.AwaitOrStuck(done, 2*time.Second, 120*time.Second, director.Get().Total)
+		if v == "stuck" {
+			c.Violationf("PMap:nested-does-not-return", map[string]any{"scenario": id, "goroutines": core.RepoGoroutineSummary(dump)[:min(12, len(core.RepoGoroutineSummary(dump)))]},
+				"%d concurrent PMap calls over %d elements (FixedPool %d) whose f itself calls PMap over %d elements (FixedPool %d) never returned; no goroutine can make progress", concurrentCalls, outer, outerPool, inner, innerPool)
+			return
+		}
+		if v != "done" {
+			c.Inconclusive("watchdog in " + id)
+			return
+		}
+		if pv != nil {
+			c.Violationf("PMap:panic:"+core.NormalizePanic(fmt.Sprint(pv)), rep, "nested PMap panics: %v", pv)
+			return
+		}
+		tri := inner * (inner + 1) / 2
+		for k := range results {
+			if len(results[k]) != outer {
+				c.Violationf("PMap:ordered-result-wrong", rep, "nested PMap returned %d results for %d elements", len(results[k]), outer)
+				return
+			}
+			for i, r := range results[k] {
+				if r != (i+1)*tri {
+					c.Violationf("PMap:ordered-result-wrong", rep, "nested PMap: result #%d is %d, want %d", i, r, (i+1)*tri)
+					return
+				}
+			}
+		}
+	}}
+}
+
+// one *PMapOption value reused across a sequence of calls (lists of different lengths, among them empty ones): every
+// call is bounded by min(FixedPool as the caller wrote it, len(list))
+func c16OptionReuse(id string, fixedPool int, random bool, lens []int) core.Scenario {
+	return core.Scenario{ID: id, Class: "PMap.option-reuse", Run: func(c *core.Ctx) {
+		rep := map[string]any{"scenario": id, "fixed_pool": fixedPool, "random_order": random, "list_lengths": fmt.Sprint(lens)}
+		c.Eval(int64(len(lens)))
+		c.Distinct(id)
+		opt := &fpgo.PMapOption{FixedPool: fixedPool, RandomOrder: random}
+		for step, n := range lens {
+			var gauge, maxGauge atomic.Int32
+			calls := make([]atomic.Int32, n)
+			f := func(x int) int {
+				g := gauge.Add(1)
+				for {
+					m := maxGauge.Load()
+					if g <= m || maxGauge.CompareAndSwap(m, g) {
+						break
+					}
+				}
+				calls[x].Add(1)
+				for k := 0; k < 20; k++ {
+					runtime.Gosched()
+				}
+				gauge.Add(-1)
+				return x + 1
+			}
+			list := make([]int, n)
+			for i := range list {
+				list[i] = i
+			}
+			var res []int
+			done := make(chan struct{})
+			var pv any
+			go func() { defer close(done); pv, _ = core.Catch(func() { res = fpgo.PMap(f, opt, list...) }) }()
+			v, dump := core.AwaitOrStuck(done, 2*time.Second, 60*time.Second, director.Get().Total)
+			if v == "stuck" {
+				c.Violationf("PMap:does-not-return", map[string]any{"scenario": id, "goroutines": core.RepoGoroutineSummary(dump)}, "call #%d of a sequence sharing one option never returned", step)
+				return
+			}
+			if v != "done" {
+				c.Inconclusive("watchdog in " + id)
+				return
+			}
+			if pv != nil {
+				c.Violationf("PMap:panic:"+core.NormalizePanic(fmt.Sprint(pv)), rep, "call #%d (len %d) of a sequence sharing one option panics: %v", step, n, pv)
+				return
+			}
+			bound := n
+			if fixedPool > 0 && fixedPool < n {
+				bound = fixedPool
+			}
+			if int(maxGauge.Load()) > bound {
+				c.Violationf("PMap:parallelism-exceeds-bound", rep, "one PMapOption{FixedPool: %d} reused for lists of lengths %v: in call #%d (len %d) %d applications of f ran at the same time, bound is %d", fixedPool, lens, step, n, maxGauge.Load(), bound)
+				return
+			}
+			sorted := append([]int(nil), res...)
+			sort.Ints(sorted)
+			for i := 0; i < n; i++ {
+				if len(sorted) != n || sorted[i] != i+1 || calls[i].Load() != 1 || (!random && res[i] != i+1) {
+					c.Violationf("PMap:ordered-result-wrong", rep, "call #%d (len %d) of a sequence sharing one option returned %v", step, n, res)
+					return
+				}
+			}
+		}
+	}}
+}
+
 func c16Scenarios(c *core.Ctx, race bool) []core.Scenario {
 	var out []core.Scenario
+	for i, cfg := range [][5]int{{300, -1, 3, -1, 1}, {600, 0, 2, 1, 1}, {1100, 1000, 3, 2, 1}, {80, -1, 4, -1, 4}, {40, 8, 5, 2, 3}, {2100, -1, 2, -1, 1}, {5000, 4500, 2, 0, 1}} {
+		if race && i%2 == 1 {
+			continue
+		}
+		if i >= 5 && !c.Thorough() {
+			continue
+		}
+		out = append(out, c16Nested(fmt.Sprintf("nested-%d-fp%d-in%d-fp%d-x%d-race%v", cfg[0], cfg[1], cfg[2], cfg[3], cfg[4], race), cfg[0], cfg[1], cfg[2], cfg[3], cfg[4]))
+	}
+	for _, fp := range []int{1, 2, 3, 7} {
+		for _, random := range []bool{false, true} {
+			out = append(out, c16OptionReuse(fmt.Sprintf("option-reuse-fp%d-rnd%v-race%v", fp, random, race), fp, random, []int{5, 0, 64, 1, 40, 0, 0, 33, 2, 48}))
+			out = append(out, c16OptionReuse(fmt.Sprintf("option-reuse-short-first-fp%d-rnd%v-race%v", fp, random, race), fp, random, []int{1, 30, 2, 30, 0, 30}))
+		}
+	}
 	lens := []int{0, 1, 2, 3, 5, 8, 13, 21, 34, 64}
 	if c.Thorough() {
 		lens = append(lens, 4, 6, 7, 16, 33, 100, 257)
@@ -191,7 +349,7 @@ func init() {
 		Meta: func(c *core.Ctx) core.Meta {
 			return core.Meta{
 				Level:       "exploration",
-				Rule:        "list lengths {0,1,2,3,5,8,13,21,34,64} (+7 more in thorough) and long lists {1030,1100,2100,5000} (thorough up to 70000) with pools {1,2,4,7,64,n/2,n,0} x FixedPool in {-1,0,1,2,len-1,len,len+1,1000} and no option x {ordered, RandomOrder} x 5 duration profiles (uniform, decreasing with the index so that completion order reverses, one very slow first element, PRNG yields, sleeps); f is the monitor: per-element atomic call counters (unique elements), a concurrency gauge whose maximum is compared with min(FixedPool, len), result compared with the harness' own map (permutation for RandomOrder), gauge must be 0 when PMap returns; termination by the stuck detector; repeated in the -race build (deciding: result assembly must be race-free). distinct_nontrivial = distinct scenarios",
+				Rule:        "list lengths {0,1,2,3,5,8,13,21,34,64} (+7 more in thorough) and long lists {1030,1100,2100,5000} (thorough up to 70000) with pools {1,2,4,7,64,n/2,n,0} x FixedPool in {-1,0,1,2,len-1,len,len+1,1000} and no option x {ordered, RandomOrder} x 5 duration profiles (uniform, decreasing with the index so that completion order reverses, one very slow first element, PRNG yields, sleeps); f is the monitor: per-element atomic call counters (unique elements), a concurrency gauge whose maximum is compared with min(FixedPool, len), result compared with the harness' own map (permutation for RandomOrder), gauge must be 0 when PMap returns; termination by the stuck detector; nested use (f itself calls PMap; 300..1100 outer workers (thorough 5000), or several concurrent outer calls); one *PMapOption value reused across sequences of calls with lists of lengths {5,0,64,1,40,0,0,33,2,48} (bound per call from the FixedPool the caller wrote); repeated in the -race build (deciding: result assembly must be race-free). distinct_nontrivial = distinct scenarios",
 				Assumptions: []string{"FixedPool <= 0 or absent means len(list) goroutines", "the stuck verdict needs: no return, no hook progress for 2 s and no library goroutine running/runnable/sleeping in two successive dumps"},
 			}
 		},
